@@ -22,6 +22,26 @@ let dispatch (f : string array) : string option =
   | "relative" -> Some (out_str (api_relative (a 1) (a 2)))
   | "relative_spec" -> Some (out_str (api_relative_spec (a 1) (a 2)))
   | "relative_check" -> Some (out_bool (api_relative_check (a 1) (a 2) (a 3)))
+  | "base" | "last" -> Some (out_res out_str (api_base (a 1)))
+  | "first" -> Some (out_res out_str (api_first (a 1)))
+  | "dir" -> Some (out_res out_str (api_dir (a 1)))
+  | "ext" -> Some (out_res out_str (api_ext (a 1)))
+  | "name" -> Some (out_res out_str (api_name (a 1)))
+  | "trim_prefix" -> Some (out_str (api_trim_prefix (a 1) (a 2)))
+  | "trim_suffix" -> Some (out_str (api_trim_suffix (a 1) (a 2)))
+  | "trim_ext" -> Some (out_str (api_trim_ext (a 1)))
+  | "has" -> Some (out_bool (api_has (a 1) (a 2)))
+  | "has_prefix" -> Some (out_bool (api_has_prefix (a 1) (a 2)))
+  | "has_suffix" -> Some (out_bool (api_has_suffix (a 1) (a 2)))
+  | "mash" -> Some (out_str (api_mash (a 1) (a 2)))
+  | "trim_first" -> Some (out_str (api_trim_first (a 1)))
+  | "trim_last" -> Some (out_str (api_trim_last (a 1)))
+  | "concat" -> Some (out_str (api_concat (a 1) (a 2)))
+  | "parse_paths" -> Some (out_strlist (api_parse_paths (a 1)))
+  | "is_empty" -> Some (out_bool (api_is_empty (a 1)))
+  | "trim_protocol" -> Some (out_str (api_trim_protocol (a 1)))
+  | "true" -> Some "B:1"
+  | "kf_ext_class" -> Some (out_bool (api_kf_ext_class (a 1)))
   | "is_absolute" -> Some (out_bool (api_is_absolute (a 1)))
   | _ -> Extra.dispatch f
 
